@@ -38,14 +38,23 @@ CLAIMS = {
              "flag discipline the code maintains (an unflagged attached step satisfies its local equation or has a "
              "flagged consumer) the refresh leaves every attached step with cached (_implied_need, _tail_time) equal to "
              "the unique solution of the local equations, equals the from-scratch refresh as a state, changes nothing "
-             "else, and terminates in every reachable database (dependencies are acyclic after every history). The "
-             "flag discipline itself is sampled: on the model state after every request of generated histories "
-             "(executable form proved equivalent) and on the real database by the cache oracle, together with the "
-             "from-scratch eligibility at every dispatch decision.",
+             "else, and terminates in every reachable database (dependencies and creator links are acyclic after every "
+             "history); the same for _update_meta_safe (MAX(depth) resolution; the MIN variant has a kernel-checked "
+             "counterexample). The three flag disciplines are themselves invariants: _ready unconditionally for every "
+             "history, _safe for every history in which only the root defines a step 'safe from the start' (what "
+             "initialize_boot does), _implied_need/_tail_time for every history with constant targets (and "
+             "reconcile_targets carries it to new targets); the excluded requests have kernel-checked counterexamples "
+             "that replay on the real code and are requests the director never issues. Hence after every such history "
+             "the cached columns equal their definitions after a refresh, and a dispatched step has, on the graph, every "
+             "declared input attached and BUILT/CONFIRMED and every recursive creator RUNNING/SUCCEEDED and not holding. "
+             "The disciplines are also sampled on the model state after every generated request and on the real "
+             "database by the cache oracle, together with the from-scratch eligibility at every dispatch decision.",
         note=BASE_NOTE + "Priority among eligible steps is not part of the property. Phase termination is relative to "
-             "'every started command terminates' plus the defer cap. The flag discipline over all histories and the "
-             "agreement of the cached _safe column are not theorems (oracle). F14 (stale _safe) and F20 (stale "
-             "_implied_need after reset_for_rerun) were found by this oracle and fixed.",
+             "'every started command terminates' plus the defer cap. The side conditions of the discipline theorems "
+             "(constant targets between reconciliations, no raw detach of an output file, no 'safe' definition below a "
+             "step) describe what the director issues; they are not verified on director.py. F14 (stale _safe) and F20 "
+             "(stale _implied_need after reset_for_rerun) were found by the oracle and fixed; the model proofs were "
+             "done on the repaired code.",
         technique="Lean 4 proof over regenerated SQL truth tables + kernel correspondence + from-scratch scheduling oracle",
         design="9/C10",
     ),
@@ -68,8 +77,15 @@ CLAIMS = {
     "C12": dict(
         text="Lean theorems: a step that passes the resource test requires only defined resources and fits next to "
              "what RUNNING steps hold; a step dispatched to run its command has its resources free and is _safe (no "
-             "holding creator); release without hold is rejected; leaving RUNNING resets the hold counter. The oracle "
-             "checks resource sums of RUNNING steps and holding creators on the real database after every request.",
+             "holding creator); release without hold is rejected; leaving RUNNING resets the hold counter; over whole "
+             "histories with a fixed resource table the RUNNING steps never hold more than available nor an undefined "
+             "resource, provided no step is set RUNNING outside the dispatch protocol and a define that recycles a "
+             "still-running step fits the table (both conditions have kernel-checked counterexamples; the second is "
+             "the known finding F7, replayed on the real code); after every director history a job that starts a "
+             "command belongs to a step all of whose recursive creators are RUNNING/SUCCEEDED and hold nothing (a "
+             "hash CHECK may bypass a hold; it starts no command). The oracle checks resource sums of RUNNING steps and "
+             "holding creators on the real database after every request, and job limit, overlap and hold blocks on "
+             "simulated builds.",
         note=BASE_NOTE + "The job limit, the overlap of executions in time and hold blocks of whole builds are properties "
              "of the builder loop: decided by the oracle on simulated builds of the real director (logical clock), not "
              "by a theorem. F7/F9 (recycling a detached RUNNING step) remain in scope of the oracle.",
